@@ -27,6 +27,6 @@ def keep(c):
 def finding_key(c, r):
     return None
 
-LEVEL_TEXT = "placeholder"
-LEVEL_NOTE = "placeholder"
+LEVEL_TEXT = 'Theorems (Props/C20.v): the tokenizer ignores ASCII letter case; two queries with the same lower-casing get the same answer from the index/NLP pipeline. Tied by the engine correspondence, where every case is also run with a randomly re-cased query and must give the bit-identical answer (all paths incl. typo fallback and NLP).'
+LEVEL_NOTE = 'Partial: the NLP analysis, TF-IDF ranking and fuzzy matcher are oracles computed from the query by un-modelled code; their case-invariance is compared per case, not proved. CLI whitespace normal form: C14. Trusted: Coq kernel; harness.'
 TECHNIQUE = "Coq proof over the engine model + differential correspondence (vm_compute, bit-exact scores)"
